@@ -1,7 +1,7 @@
 (** Soundness of the shwap verifiers (model: Verify.v) against a committed extended square: whatever verifies carries
     exactly the committed shares at the requested position. *)
 From Coq Require Import List Arith NArith Lia Bool.
-From CN Require Import Base.Nmt Base.NmtProofs Base.NmtComplete Shwap.Verify.
+From CN Require Import Base.Nmt Base.NmtProofs Base.NmtComplete Base.NmtHonest Shwap.Verify.
 Import ListNotations.
 
 (** * Lists *)
@@ -134,6 +134,27 @@ Section Square.
       rewrite Es in P. cbn [Nat.add] in P. rewrite eds_col_nth in P by exact Hr.
       inversion P as [Q]. unfold leaf_at, leaf_hash in Q. inversion Q.
       destruct (sm_share s), (cell row col); cbn in *; subst; reflexivity.
+  Qed.
+
+  (** ** Completeness direction for samples: the honest sample of any coordinate (row-axis proof made by the honest
+      prover over a well-formed row) is accepted. *)
+  Theorem sample_complete_row row col :
+    row < w -> col < w -> valid (row_root row) ->
+    sample_verify dah (mksample (cell row col)
+                        (Some (mkproof col (col + 1) (prove D 0 col (col + 1) (row_leaves w row (eds_row row))) None)) 0)
+                  row col = true.
+  Proof.
+    intros Hr Hc Hv. unfold sample_verify. cbn [sm_proof sm_axis sm_share Nat.eqb orb].
+    unfold is_empty_proof. cbn [p_start p_end p_nodes p_leaf].
+    replace (Nat.eqb col (col + 1)) with false by (symmetry; apply Nat.eqb_neq; lia). cbn [andb negb].
+    rewrite !Nat.eqb_refl. cbn [andb]. rewrite dah_rows. cbn [row_roots dah]. rewrite (nth_map_seq row_root) by exact Hr.
+    assert (HL : length (row_leaves w row (eds_row row)) = 2 ^ D)
+      by (unfold row_leaves; rewrite mapi_from_length; apply eds_row_length).
+    apply prove_verify_inclusion; auto.
+    unfold row_leaves. rewrite (mapi_from_nth _ _ _ _ (0%N, 0%N)) by (rewrite eds_row_length; exact Hc).
+    cbn [Nat.add]. rewrite eds_row_nth by exact Hc. unfold leaf_at, leaf_prefix_at. f_equal.
+    destruct (Nat.ltb_spec row (w / 2)), (Nat.ltb_spec col (w / 2)), (Nat.leb_spec (w / 2) col), (Nat.leb_spec (w / 2) row);
+      cbn [andb orb]; try reflexivity; lia.
   Qed.
 
   (** ** Row namespace data (C02, one row): what verifies is exactly the row's shares of the namespace, in order;
